@@ -69,6 +69,18 @@ InitSt == [o \in Node |-> [n \in {o} |-> EmptyView]]
 EmptyQ == [o \in Node |-> <<>>]
 EmptyS == [o \in Node |-> {}]
 
+(* gossipRound (pkg/gossip/gossip.go): every period a node sends a digest request to one random live peer *)
+(* (known, not left, not unreachable) and to one random unreachable peer (so that two healthy nodes that   *)
+(* suspect each other still meet); never to itself, never to a peer that left and is not unreachable.     *)
+LivePeers(a) == {n \in Known(a) \ {a} : ~st[a][n].left /\ ~st[a][n].unreach}
+UnreachPeers(a) == {n \in Known(a) \ {a} : st[a][n].unreach}
+PeerSelectionOK(a, ts) ==
+  LET nl == IF LivePeers(a) = {} THEN 0 ELSE 1
+      nu == IF UnreachPeers(a) = {} THEN 0 ELSE 1
+  IN /\ Len(ts) = nl + nu
+     /\ (nl = 1 => ts[1] \in LivePeers(a))
+     /\ (nu = 1 => ts[nl + 1] \in UnreachPeers(a))
+
 -----------------------------------------------------------------------------
 (* Layer A: is the observed step an instance of the named spec action?     *)
 
@@ -175,6 +187,9 @@ StepViolations(e) ==
     \cup (IF e.op = "ClosureEnd" /\ e.flag /\ ~ConvergedLive THEN {"Converged"} ELSE {})
     \cup (IF e.op = "ClosureEnd" /\ e.flag /\ ~ConvergedKnown THEN {"DepartureSpreads"} ELSE {})
     \cup (IF e.op = "ClosureEnd" /\ ~e.flag THEN {"ClosureBound"} ELSE {})
+    \cup (IF e.op = "GossipRound" /\ ~PeerSelectionOK(e.a, e.fseq) THEN {"PeerSelection"} ELSE {})
+    \cup (IF e.op = "SelectionEnd" /\ e.kx >= 200 /\ ~(LivePeers(e.a) \cup UnreachPeers(e.a) \subseteq Range(e.fseq))
+          THEN {"PeerSelectionFair"} ELSE {})
     \cup (IF e.op = "RecvDelta" /\ ~PullProgressFor(e.slot) THEN {"PullProgress"} ELSE {})
     \cup (IF e.pktmax > 0 /\ e.op \notin {"Encode", "EncodeDigest"} /\
              \E i \in DOMAIN e.pktlens : e.pktlens[i] > e.pktmax
